@@ -108,6 +108,16 @@ func GenContent(o ContentOpts) *rapid.Generator[Content] {
 			buf.Write(seg)
 			buf.WriteByte('\n')
 		}
+		if o.BigRuns && rapid.IntRange(0, 4).Draw(t, "lastline-hazard") == 0 {
+			// the last line has a length that exactly fills, or just misses, a transport buffer / MaxLineLength
+			cands := []int{32767, 32768, 32769, 65535, 65536, 65537, 32768 - 1, 2 * 32768}
+			if o.M > 1 && o.M <= 70000 {
+				cands = append(cands, o.M-1, o.M, o.M+1, o.M-1, o.M)
+			}
+			buf.Write(fill(rapid.SampledFrom(cands).Draw(t, "lastlen"), "lastseed"))
+			buf.WriteByte('\n')
+			classes["last-line-hazard-length"] = true
+		}
 		data := buf.Bytes()
 		if len(data) > 0 && rapid.IntRange(0, 2).Draw(t, "nofinalnl") == 0 {
 			data = data[:len(data)-1]
